@@ -908,7 +908,7 @@ unit(P, U_K2, "R", bounded=True,
 # ---- A2 generator
 def gen_pair_cases(rnd, tier):
     cap = 7000 if tier == "quick" else 70000
-    budget = 200000 if tier == "quick" else 4000000
+    budget = 200000 if tier == "quick" else 3000000
     vals = [0.0, 0.25, 0.5, 1.0]
     cands = []
     for nrow in (1, 2):
@@ -941,7 +941,7 @@ U_PAIR = "ring[exact law of gamete pairs: mat_mate, dense_cross]"
 
 @unit(P, U_PAIR, "R", bounded=True,
       note="bounded: 1-2 progeny, p<=4, xoprob grid {0,.25,.5,1} (+seeded irregular), every combination of threshold cells of ALL "
-           "2*n*p draws of a call (<=7000/70000 calls per case, total budget 3.3e5/4e6 calls)")
+           "2*n*p draws of a call (<=7000/70000 calls per case, total budget 2e5/3e6 calls)")
 def u_ring_pair(ctx):
     ctx.rule = ("one real call per combination of threshold cells of every draw the call consumes (no assumption on which draw "
                 "feeds which gamete); exact joint law of (female gamete, male gamete) per progeny vs. product of the statement's "
@@ -964,7 +964,7 @@ def proto_cost(proto, xo, nself, nm, npg, part):
 def gen_proto_cases(rnd, tier, proto, multi=False):
     nparent = PROTOCOLS[proto][1]
     cap = 20000 if tier == "quick" else 300000
-    budget = 50000 if tier == "quick" else 850000
+    budget = 50000 if tier == "quick" else 700000
     vecs = [([0.5], None), ([0.5, 0.25], None), ([0.5, 0.0], None), ([0.5, 1.0], None), ([0.5, 0.5], [1, 2]),
             ([0.5, 0.1], None), ([0.5, 0.5], None), ([0.5, 0.75], None),
             ([0.5, 1.0, 0.25], None), ([0.5, 0.25, 0.5], [1, 1, 2]), ([0.5, 0.0, 0.3], None), ([0.5, 0.5, 0.1], [1, 2, 2]),
@@ -1012,7 +1012,7 @@ for _proto in PROTOCOLS:
     PROTO_UNITS[_name] = _proto
     unit(P, _name, "R", bounded=True,
          note="bounded: one cross, one progeny, p<=4 markers with 0.5 at chromosome starts, nself<=2, <=2e4/3e5 calls per case, "
-              "total 7e4/8.5e5 calls")(_proto_unit(_proto))
+              "total 5e4/7e5 calls")(_proto_unit(_proto))
 for _proto in ("TwoWayCross", "TwoWayDHCross"):
     _name = "ring[exact joint law of several progeny: %s.mate]" % _proto
     PROTO_UNITS[_name] = _proto
@@ -1114,7 +1114,8 @@ def gen_embv_cases(rnd, tier):
     vecs = [[0.5], [0.5, 0.25], [0.5, 0.0], [0.5, 1.0], [0.5, 0.5], [0.5, 0.1, 0.3], [0.5, 1.0, 0.25], [0.5, 0.5, 0.75]]
     if tier == "thorough":
         vecs += [[0.5, 0.25, 0.1, 0.3], [0.5, 0.0, 0.5, 0.2], [0.5, 0.75], [0.5, 0.3, 1.0]]
-    cap = 5000 if tier == "quick" else 300000
+    cap = 5000 if tier == "quick" else 70000
+    budget = 12000 if tier == "quick" else 300000
     k = 0
     for xo in vecs:
         for npg in (1, 2):
@@ -1124,8 +1125,9 @@ def gen_embv_cases(rnd, tier):
                 cost = 1
                 for i in range(3 * npg * p):
                     cost *= len(per[i % p])
-                if cost > cap:
+                if cost > cap or cost > budget:
                     continue
+                budget -= cost
                 k += 1
                 yield dict(kind="embv", xoprob=xo, npg=npg, part=part, rep=REPS[k % 4], seed=k)
 
@@ -1135,7 +1137,7 @@ U_EMBV = "ring[exact doubled-haploid law inside DenseExpectedMaximumBreedingValu
 
 @unit(P, U_EMBV, "R", bounded=True,
       note="bounded: 3 taxa (one fully heterozygous, two homozygous references), p<=3 (thorough 4), 1-2 doubled haploids, one "
-           "replicate, <=5000/3e5 calls per case; the module's global generator is replaced by a scripted one")
+           "replicate, <=5000/7e4 calls per case, total 1.2e4/3e5 calls; the module's global generator is replaced by a scripted one")
 def u_ring_embv(ctx):
     ctx.rule = ("from_gmod with marker effects 2^j so that the breeding value identifies the transmitted copies; every combination "
                 "of threshold cells of all draws of the call; exact law of the best doubled haploid's value vs. the statement's "
